@@ -597,6 +597,25 @@ def do_project(payload):
                     if prev.get(p) != cur.get(p):
                         ofails.append({'kind': 'not_idempotent', 'step': k, 'path': p, 'once': prev.get(p), 'twice': cur.get(p)})
                         break
+            # reinstall with the same command names the same files and links in the log (directories exist by then)
+            if (k > 0 and step['op'] == 'install' and not step.get('dry') and not step.get('only_changed') and hist['steps'][k - 1] == step
+                    and r.returncode == 0 and impl_blocks[k - 1]['status'] == 'OK'):
+                prev_tree = tree_after_step[k - 1]
+
+                def nondir_lines(lines, tree_):
+                    return sorted(l for l in (lines or []) if not l.startswith('#') and tree_.get(os.path.normpath(l), ('?',))[0] != 'D')
+                cur_tree = {p: n for p, n in after.items() if under(p, arena)}
+                a1, a2 = nondir_lines(log_before, prev_tree), nondir_lines(log_after, cur_tree)
+                if a1 != a2:
+                    ofails.append({'kind': 'reinstall_log_differs', 'step': k, 'only_first': sorted(set(a1) - set(a2))[:4],
+                                   'only_second': sorted(set(a2) - set(a1))[:4]})
+            # install (n times, same command) ; uninstall from a clean arena leaves no file and no link
+            if (step['op'] == 'uninstall' and k >= 1 and not hist.get('pre')
+                    and all(st == hist['steps'][0] and st['op'] == 'install' and not st.get('dry') and not st.get('only_changed') for st in hist['steps'][:k])
+                    and all(b['status'] == 'OK' for b in impl_blocks[:k])):
+                left = sorted(p for p, n in after.items() if under(p, arena) and p not in first and n[0] != 'D')
+                for p in left[:6]:
+                    ofails.append({'kind': 'uninstall_left_files', 'step': k, 'path': p, 'node': after[p]})
             # install ; uninstall from a clean arena gives the clean arena back
             if (step['op'] == 'uninstall' and k == 1 and hist['steps'][0]['op'] == 'install' and not hist['steps'][0].get('dry')
                     and impl_blocks[0]['status'] == 'OK' and not hist.get('pre')):
@@ -605,6 +624,19 @@ def do_project(payload):
                     ofails.append({'kind': 'uninstall_not_inverse', 'step': k, 'path': p, 'node': after[p]})
             tree_after_step.append({p: n for p, n in after.items() if under(p, arena)})
             before = after
+        # failures at, or behind, a symbolic link that was pre-placed in the arena belong to the link defect
+        pre_links = {}
+        for lp, ln in first.items():
+            if ln[0] == 'L':
+                pre_links[lp] = lp
+                pre_links[os.path.normpath(os.path.join(os.path.dirname(lp), ln[3]))] = lp
+        for f_ in ofails:
+            pth = f_.get('path') or f_.get('line')
+            if pth and 'via_symlink' not in f_:
+                for tgt, lp in pre_links.items():
+                    if under(pth, tgt):
+                        f_['via_symlink'] = lp
+                        break
         res['histories'].append({'records': recs + frecs + crecs, 'impl': impl_blocks, 'oracle': ofails,
                                  'arena': arena, 'destdir': D})
         shutil.rmtree(arena, ignore_errors=True)
